@@ -377,7 +377,7 @@ def tlc_family(family):
     with open(cfg, "w") as f:
         f.write('SPECIFICATION MCSpec\nCONSTANT Family = "%s"\nINVARIANT Emit\nCHECK_DEADLOCK FALSE\n' % family)
     big = family in ("allret", "allpar")
-    r = run_tlc("MCTypeGate", cfg, workers=3 if big else 2, timeout=1500, heap="4g", coverage=False)
+    r = run_tlc("MCTypeGate", cfg, workers=2, timeout=1500, heap="4g", coverage=False)
     require_tlc_ok(r, "MCTypeGate " + family)
     us = [json.loads(vlib._unescape_tla(raw)) for (tag, raw) in r.prints if tag == "UNIVERSE"]
     if len(us) != 1:
@@ -475,17 +475,26 @@ def probe_family(family):
     sets = write_sets(family, {family: uids})
     groups = script_groups(named_items)
     results = [None] * len(cases)
-    for gno, idx in enumerate(groups):
+
+    def run_group(gno):
+        idx = groups[gno]
         tag = family if len(groups) == 1 else "%s_g%d" % (family, gno)
         items = [named_items[k] for k in idx]
         names = {n for n, _ in items}
         script, err = write_script(tag, items)
         if err:
-            return (family, r, universe, uids, expected, cases, None, script, err)
+            return (script, err, [], [])
         sel = [k for k, e in enumerate(expected) if e["decl"] in names]
-        res = vlib.run_batch("c04", [cases[k] for k in sel], extra=[script, sets], nproc=min(6, max(1, len(sel) // 30)), pid=PID, tag=tag, stall=120)
-        for k, x in zip(sel, res):
-            results[k] = x
+        res = vlib.run_batch("c04", [cases[k] for k in sel], extra=[script, sets],
+                             nproc=min(6, max(1, len(sel) // 30)), pid=PID, tag=tag, stall=120)
+        return (script, None, sel, res)
+
+    with ThreadPoolExecutor(max_workers=4) as ex:
+        for script, err, sel, res in ex.map(run_group, range(len(groups))):
+            if err:
+                return (family, r, universe, uids, expected, cases, None, script, err)
+            for k, x in zip(sel, res):
+                results[k] = x
     return (family, r, universe, uids, expected, cases, results, None, None)
 
 
